@@ -10,7 +10,8 @@ from . import flwgen as G
 
 
 def run(pid, tier, seed, *, mc, gen, rand_fn, mon, assumptions, rule, level="model_checking",
-        regress=(), extra_facts=None, mon_env=None, post_scen=None, sub="flw", cap=None, shard_env=None, conform=True):
+        regress=(), extra_facts=None, mon_env=None, post_scen=None, sub="flw", cap=None, shard_env=None, conform=True,
+        extra=None):
     """mc: list of (module, cfg, workers, timeout) model-checking runs whose invariants must hold.
     gen: list of (module, cfg, extra_cfg, tag) scenario-generating TLC runs (REPLAY lines).
     rand_fn(rng, tier, next_sc) -> list of scenarios.
@@ -73,6 +74,13 @@ def run(pid, tier, seed, *, mc, gen, rand_fn, mon, assumptions, rule, level="mod
                         s.setdefault("origin", "regress:" + rf)
                         scens.append(s)
                         nreg += 1
+        if extra:
+            # a further specification of the same property: its own model checking, its behaviours as scenarios
+            xs, xmc, xst, xtr = extra.before(wd, tier, seed, len(scens) + 1)
+            scens += xs
+            mc_stats += xmc
+            states += xst
+            transitions += xtr
         for s_ in scens:
             s_["conf"] = conform and C.conformable(s_)
         # 3. execute on the real code, 4. judge with the TLA+ monitor
@@ -116,6 +124,8 @@ def run(pid, tier, seed, *, mc, gen, rand_fn, mon, assumptions, rule, level="mod
             "exhaustive": False,
             "harness_build_s": round(build_s, 1),
         }
+        if extra:
+            cov.update(extra.after(res, wd))
         C.write_evidence(pid, tier, seed, level, cov, assumptions, time.time() - t0, len(viols))
         return 1 if viols else 0
     finally:
